@@ -28,10 +28,11 @@ RecFrom(tr, s, i) ==
   IF i > Len(SeqOf(tr, s)) THEN <<>>
   ELSE LET n == SeqOf(tr, s)[i] IN
        <<Item("instr", -1, n.k, n.ops)>> \o Kids(tr, n.kids, 1) \o RecFrom(tr, s, i + 1)
-RecItems(tr, s) == <<Item("start", s, "", <<>>)>> \o RecFrom(tr, s, 1) \o <<Item("end", s, "", <<>>)>>
+\* a sequence whose own block type is a function type reports that type id right after its start event
+SeqTy(tr, s) == IF tr.tys[s + 1] >= 0 THEN << <<"type", tr.tys[s + 1]>> >> ELSE <<>>
+RecItems(tr, s) == <<Item("start", s, "", SeqTy(tr, s))>> \o RecFrom(tr, s, 1) \o <<Item("end", s, "", <<>>)>>
 
-\* operand callbacks attached to start/end items (the sequence's own block type) are not instruction operands
-Norm(it) == IF it.t = "instr" THEN Item("instr", -1, it.k, it.ops) ELSE Item(it.t, it.seq, "", <<>>)
+Norm(it) == IF it.t = "instr" THEN Item("instr", -1, it.k, it.ops) ELSE Item(it.t, it.seq, "", it.ops)
 NormLog(c) == [q \in DOMAIN c.log |-> Norm(c.log[q])]
 
 Ran(f) == {f[x] : x \in DOMAIN f}
